@@ -10,6 +10,7 @@
 -/
 import Ladybug.DrvCore
 import Ladybug.Model.SunTimes
+import Ladybug.Model.SunpathObj
 
 open Drv
 
@@ -188,6 +189,153 @@ def handle (toks : List String) : String :=
     | _, _ => "bad-op"
   | _ => "bad-op"
 
+/-! ### Histories on one object (`hist`)
+
+    hist <lat> <lon> <tz|none> <north> <spleap> <period> ; <op> ; <op> ; …
+  The object is `Sunpath(lat, lon, tz, north, period)` followed by `is_leap_year = spleap`.
+  Ops (answers joined by " ; " in the same order; `ok` for an accepted setter, `-` for a read the
+  model does not describe, `err:<class>` for a refused operation):
+    slat|slon|snorth <bits | bad:<class>>      stz <bits | none | bad:<class>>
+    sleap <0|1>        sper <period> | sper bad
+    dst <dt>           sun <solar> <dt>          csun <solar> <month> <day> <hourbits>
+    smoy <solar> <int> shoy <solar> <int>
+    riseset <solar> <dep> <dt>                   risesetmd <solar> <dep> <month> <day>
+    analemma <solar> <daytime> <sm> <em> <steps> <h> <mi>   hourly <solar> <daytime> <sm> <em> <steps>
+    dayarc <dep> <daytime> <month> <day>         nop
+-/
+
+open SunpathObj in
+def showOErr : OErr → String
+  | .value => "err:value"
+  | .index => "err:index"
+  | .type => "err:type"
+  | .zero => "err:zero"
+  | .assert => "err:assert"
+  | .attr => "err:attr"
+
+def oerr? (s : String) : Option SunpathObj.OErr :=
+  if s = "bad:value" then some .value
+  else if s = "bad:type" then some .type
+  else if s = "bad:assert" then some .assert
+  else if s = "bad:attr" then some .attr
+  else if s = "bad:index" then some .index
+  else if s = "bad:zero" then some .zero
+  else none
+
+def num? (s : String) : Option (Except SunpathObj.OErr Float) :=
+  match oerr? s with
+  | some e => some (.error e)
+  | none => (fun f => .ok f) <$> floatBits? s
+
+def showOut : SunpathObj.Out Float → String
+  | .done => "ok"
+  | .flag b => s!"ok {showBool b}"
+  | .sun s => "ok " ++ showSunD s
+  | .riseSet r => s!"ok {showODT r.sunrise} {showDT r.noon} {showODT r.sunset}"
+  | .suns l => s!"ok {l.length} " ++ joinSp (l.map showSunD)
+  | .sunss ll => s!"ok {ll.length} " ++ joinSp (ll.map fun l => s!"{l.length} " ++ joinSp (l.map showSunD))
+  | .arc none => "ok none"
+  | .arc (some a) =>
+    s!"ok {if a.polar then "polar" else "arc"} {showSunD (a.first, false)} {showSunD (a.mid, false)} {showSunD (a.last, false)}"
+  | .unmodelled => "-"
+  | .err e => showOErr e
+
+/-- Split a token list at the ";" tokens. -/
+def splitSemi (toks : List String) : List (List String) :=
+  let r := toks.foldl (fun (acc : List (List String) × List String) t =>
+    if t = ";" then (acc.2.reverse :: acc.1, []) else (acc.1, t :: acc.2)) ([], [])
+  (r.2.reverse :: r.1).reverse
+
+def dtArg (toks : List String) (k : Cal.DT → SunpathObj.Query Float) : Option (SunpathObj.Op Float) :=
+  match dt? toks with
+  | some (.ok d, []) => some (.rd (k d))
+  | some (.error e, []) => some (.argErr (SunpathObj.ofCal e))
+  | _ => none
+
+def op? (toks : List String) : Option (SunpathObj.Op Float) :=
+  match toks with
+  | ["slat", x] => (fun v => SunpathObj.Op.setLat v) <$> num? x
+  | ["slon", x] => (fun v => SunpathObj.Op.setLon v) <$> num? x
+  | ["snorth", x] => (fun v => SunpathObj.Op.setNorth v) <$> num? x
+  | ["stz", x] =>
+    if x = "none" then some (.setTz (.ok none))
+    else match num? x with
+      | some (.ok f) => some (.setTz (.ok (some f)))
+      | some (.error e) => some (.setTz (.error e))
+      | none => none
+  | ["sleap", b] => (fun b => SunpathObj.Op.setLeap b) <$> bool? b
+  | ["sper", "bad"] => some (.setPeriod (.error .assert))
+  | "sper" :: rest =>
+    match period? rest with
+    | some (p, []) => some (.setPeriod (.ok p))
+    | _ => none
+  | "dst" :: rest => dtArg rest (fun d => .isDst d)
+  | "sun" :: solar :: rest =>
+    match bool? solar with
+    | some solar => dtArg rest (fun d => .sun d solar)
+    | none => none
+  | ["csun", solar, mo, da, h] =>
+    match bool? solar, mo.toNat?, da.toNat?, floatBits? h with
+    | some solar, some mo, some da, some h => some (.rd (.sunMDH mo da h solar))
+    | _, _, _, _ => none
+  | ["smoy", solar, m] =>
+    match bool? solar, m.toInt? with
+    | some solar, some m => some (.rd (.sunMoy m solar))
+    | _, _ => none
+  | ["shoy", solar, h] =>
+    match bool? solar, h.toInt? with
+    | some solar, some h => some (.rd (.sunMoy (h * 60) solar))
+    | _, _ => none
+  | "riseset" :: solar :: dep :: rest =>
+    match bool? solar, floatBits? dep with
+    | some solar, some dep => dtArg rest (fun d => .riseSet d dep solar)
+    | _, _ => none
+  | ["risesetmd", solar, dep, mo, da] =>
+    match bool? solar, floatBits? dep, mo.toNat?, da.toNat? with
+    | some solar, some dep, some mo, some da => some (.rd (.riseSetMD mo da dep solar))
+    | _, _, _, _ => none
+  | ["analemma", solar, daytime, sm, em, steps, h, mi] =>
+    match bool? solar, bool? daytime, sm.toNat?, em.toNat?, steps.toInt?, h.toNat?, mi.toNat? with
+    | some solar, some daytime, some sm, some em, some steps, some h, some mi =>
+      some (.rd (.analemma h mi daytime solar sm em steps))
+    | _, _, _, _, _, _, _ => none
+  | ["hourly", solar, daytime, sm, em, steps] =>
+    match bool? solar, bool? daytime, sm.toNat?, em.toNat?, steps.toInt? with
+    | some solar, some daytime, some sm, some em, some steps =>
+      some (.rd (.hourly daytime solar sm em steps))
+    | _, _, _, _, _ => none
+  | ["dayarc", dep, daytime, mo, da] =>
+    match floatBits? dep, bool? daytime, mo.toNat?, da.toNat? with
+    | some dep, some daytime, some mo, some da => some (.rd (.dayArc mo da dep daytime))
+    | _, _, _, _ => none
+  | ["nop"] => some (.rd .unmodelled)
+  | _ => none
+
+def handleHist (toks : List String) : String :=
+  match splitSemi toks with
+  | [] => "bad-op"
+  | head :: segs =>
+    match head with
+    | lat :: lon :: tz :: north :: spleap :: rest =>
+      match floatBits? lat, floatBits? lon, tz? tz, floatBits? north, bool? spleap, period? rest with
+      | some la, some lo, some t, some n, some l, some (p, []) =>
+        match segs.mapM op? with
+        | none => "bad-op"
+        | some ops =>
+          match SunpathObj.construct la lo t n p with
+          | .error e => showOErr e
+          | .ok o0 =>
+            let o := (SunpathObj.step ofN toRat ofI o0 (.setLeap l)).1
+            let r := SunpathObj.run ofN toRat ofI o ops
+            " ; ".intercalate ("ok" :: r.2.map showOut)
+      | _, _, _, _, _, _ => "bad-op"
+    | _ => "bad-op"
+
+def handleAll (toks : List String) : String :=
+  match toks with
+  | "hist" :: rest => handleHist rest
+  | _ => handle toks
+
 end DrvC11
 
-def main : IO Unit := Drv.run DrvC11.handle
+def main : IO Unit := Drv.run DrvC11.handleAll
